@@ -334,14 +334,29 @@ func r14_5(c *RC) {
 		if !ok {
 			return
 		}
-		good := false
-		for _, e := range controllingEdges(in.Block()) {
-			if bo, ok := e.If.Cond.(*ssa.BinOp); ok && bo.Op == token.LEQ && e.Idx == 0 {
-				if k, ok := constInt(bo.Y); ok && k <= 65535 && describe(bo.X) == describe(cv.X) {
-					good = true
-				}
+		// path-sensitive: with "len(b) <= K (K <= 65535)" assumed false the
+		// store must be unreachable, also when the test is kept in a boolean
+		// local (piggyback := !lowEntropy && len(b) <= Max)
+		sameLen := func(v ssa.Value) bool { return describe(v) == describe(cv.X) }
+		fits := func(v ssa.Value) bool { k, ok := constInt(v); return ok && k <= 65535 }
+		fits1 := func(v ssa.Value) bool { k, ok := constInt(v); return ok && k <= 65536 }
+		atom := func(cond ssa.Value) (string, int, bool) {
+			v, neg := condAtom(cond)
+			ti := 0
+			if neg {
+				ti = 1
 			}
+			switch {
+			case cmpForm(v, token.LEQ, sameLen, fits), cmpForm(v, token.LSS, sameLen, fits1):
+				return "bounded", ti, true
+			case cmpForm(v, token.GTR, sameLen, fits), cmpForm(v, token.GEQ, sameLen, fits1):
+				return "bounded", 1 - ti, true
+			}
+			return "", 0, false
 		}
+		ex := &Explorer{Fn: wr, Atom: atom, Assume: map[string]bool{"bounded": false}}
+		hit := ex.Reach(nil, func(x ssa.Instruction) bool { return x == in })
+		good := hit == nil && !ex.Over
 		if good {
 			c.OKH("piggyback-length", st.Pos(), "uint16(len(b)) only under len(b) <= MaxSessionOpenPayload")
 		} else {
